@@ -76,7 +76,97 @@ func instrBlock(name string, b *ast.BlockStmt) {
 	b.List = out
 }
 
+// pushSelect rewrites (*httpPushStreamConn).Receive: in front of its select over the three
+// outcome queues it inserts non-blocking polls of the queues in an order returned by
+// verifSelectOrder(len(fast), len(slow), len(nack)) (empty when the hook is unset, so the
+// shipped behaviour is unchanged). Go's select picks at random among ready cases; the
+// pre-poll lets the simulator's tape pick instead, so both orders are explored and replayed.
+func pushSelect(in, out string) {
+	f, err := parser.ParseFile(fset, in, nil, parser.ParseComments)
+	if err != nil {
+		fmt.Fprintln(os.Stderr, err)
+		os.Exit(2)
+	}
+	done := false
+	for _, d := range f.Decls {
+		fd, ok := d.(*ast.FuncDecl)
+		if !ok || fd.Recv == nil || fd.Body == nil || fd.Name.Name != "Receive" {
+			continue
+		}
+		for i, st := range fd.Body.List {
+			sel, ok := st.(*ast.SelectStmt)
+			if !ok {
+				continue
+			}
+			type qc struct {
+				name   string
+				clause *ast.CommClause
+			}
+			var qs []qc
+			for _, c := range sel.Body.List {
+				cc := c.(*ast.CommClause)
+				as, ok := cc.Comm.(*ast.AssignStmt)
+				if !ok || len(as.Rhs) != 1 {
+					continue
+				}
+				ue, ok := as.Rhs[0].(*ast.UnaryExpr)
+				if !ok || ue.Op != token.ARROW {
+					continue
+				}
+				se, ok := ue.X.(*ast.SelectorExpr)
+				if !ok {
+					continue
+				}
+				qs = append(qs, qc{se.Sel.Name, cc})
+			}
+			if len(qs) != 3 {
+				continue
+			}
+			// for _, k := range verifSelectOrder(len(c.q0), len(c.q1), len(c.q2)) { switch k { case i: select { case id := <-c.qi: BODY; default: } } }
+			recv := fd.Recv.List[0].Names[0].Name
+			var args []ast.Expr
+			var cases []ast.Stmt
+			for k, q := range qs {
+				args = append(args, &ast.CallExpr{Fun: ast.NewIdent("len"), Args: []ast.Expr{&ast.SelectorExpr{X: ast.NewIdent(recv), Sel: ast.NewIdent(q.name)}}})
+				inner := &ast.SelectStmt{Body: &ast.BlockStmt{List: []ast.Stmt{
+					&ast.CommClause{Comm: q.clause.Comm, Body: q.clause.Body},
+					&ast.CommClause{Comm: nil, Body: nil},
+				}}}
+				cases = append(cases, &ast.CaseClause{List: []ast.Expr{&ast.BasicLit{Kind: token.INT, Value: fmt.Sprint(k)}}, Body: []ast.Stmt{inner}})
+			}
+			loop := &ast.RangeStmt{Key: ast.NewIdent("_"), Value: ast.NewIdent("verifK"), Tok: token.DEFINE,
+				X:    &ast.CallExpr{Fun: ast.NewIdent("verifSelectOrder"), Args: args},
+				Body: &ast.BlockStmt{List: []ast.Stmt{&ast.SwitchStmt{Tag: ast.NewIdent("verifK"), Body: &ast.BlockStmt{List: cases}}}}}
+			nl := append([]ast.Stmt{}, fd.Body.List[:i]...)
+			nl = append(nl, loop)
+			nl = append(nl, fd.Body.List[i:]...)
+			fd.Body.List = nl
+			done = true
+			break
+		}
+	}
+	if !done {
+		fmt.Fprintln(os.Stderr, "Receive select over three queues not found")
+		os.Exit(2)
+	}
+	var buf bytes.Buffer
+	f.Comments = nil
+	if err := format.Node(&buf, fset, f); err != nil {
+		fmt.Fprintln(os.Stderr, err)
+		os.Exit(2)
+	}
+	if err := os.WriteFile(out, buf.Bytes(), 0o644); err != nil {
+		fmt.Fprintln(os.Stderr, err)
+		os.Exit(2)
+	}
+	fmt.Println("rewrote Receive select")
+}
+
 func main() {
+	if len(os.Args) == 4 && os.Args[1] == "-pushselect" {
+		pushSelect(os.Args[2], os.Args[3])
+		return
+	}
 	if len(os.Args) != 3 {
 		fmt.Fprintln(os.Stderr, "usage: instrument <in.go> <out.go>")
 		os.Exit(2)
